@@ -40,13 +40,14 @@ def lost_confirmed(ctx, floors):
 
 def common(ctx):
     """Generic rules applied, in both tiers, to every function the property's own check placed an obligation on."""
-    from .rules import r_fresh_result, r_values_not_rounded, r_dense_into_kron, r_no_npmatrix, r_hermitian_solver_operand, r_roots_rounded, r_scalar_dim_expand, r_subsystem_count
+    from .rules import r_chunk_tail, r_oneshot_iterator, r_fresh_result, r_values_not_rounded, r_dense_into_kron, r_no_npmatrix, r_hermitian_solver_operand, r_roots_rounded, r_scalar_dim_expand, r_subsystem_count
 
     ctx.rule("R-SHAPE", "the subsystem count of a two-row dimension table is its number of columns; inferred dimensions (roots of sizes) are rounded")
     ctx.rule("R-EFFECT", "array-returning functions are not memoised: every call returns a fresh object")
     if ctx.prop == "C17":
         ctx.rule("R-SPARSE", "values that may be scipy.sparse never reach np.kron / tensor(), which only multiplies dense operands")
         ctx.rule("R-ROUND", "no named-state / standard-matrix constructor rounds what it returns to a fixed number of decimals")
+    ctx.rule("R-ENUM", "generic enumeration hygiene: block-wise enumerations cover their last partial block; one-shot iterators are traversed once")
     ctx.rule("R-KIND", "a scalar `dim` expands to [dim, total/dim]: the scalar names the first local dimension, as the list form does")
     # freshness of results: every function defined in the property's anchor files (not only those the property's own check visits)
     try:
@@ -62,6 +63,8 @@ def common(ctx):
             in_anchor = f.file in anchors or any(a.endswith("/") and f.file.startswith(a) for a in anchors)
             if in_anchor and q not in ctx.analysed_functions and f.parent is None:
                 r_fresh_result(ctx, f)
+                r_oneshot_iterator(ctx, f)
+                r_chunk_tail(ctx, f)
             if in_anchor and f.parent is None and ctx.prop == "C06" and "/channels/" in f.file:
                 r_no_npmatrix(ctx, f)
             if in_anchor and f.parent is None and ctx.prop == "C17":
@@ -76,6 +79,8 @@ def common(ctx):
             r_fresh_result(ctx, f)
             r_roots_rounded(ctx, f)
             r_hermitian_solver_operand(ctx, f)
+            r_chunk_tail(ctx, f)
+            r_oneshot_iterator(ctx, f)
             if ctx.prop in ("C01", "C02", "C03"):  # properties that quantify over n-partite operators with separate row / column dimensions
                 r_subsystem_count(ctx, f)
 
